@@ -25,7 +25,7 @@ ID = "C05"
 LEVEL = "fault_enumeration"
 RULE = (
     "case = (prior history, batch of operations, one crash point, later history); crash points "
-    "per batch: none (commit), caller exception after i ops for every i=0..n, bad-argument "
+    "per batch: none (commit), caller exception after i ops for every i=0..n (once as an Exception subclass, once as a non-Exception BaseException: own subclass / KeyboardInterrupt / GeneratorExit), bad-argument "
     "ValidationError at every position, MissingTrieNode from removed node bodies, every failing "
     "commit write n=1..W (non-pruning); evaluations = (batch, crash point) executions; distinct = "
     "distinct (canonical shape before the batch, shape of the batch's result, crash kind, prune); "
@@ -37,10 +37,10 @@ ASSUMPTIONS = [
     "reference trie vt/ref/mpt.py; twin trie = same code without batching (isolates the batch mechanism)",
 ]
 FLOORS = {
-    "quick": {"crash_none": 300, "crash_caller": 1000, "crash_badarg": 500, "crash_missing_aborted": 50,
+    "quick": {"crash_none": 300, "crash_caller": 1000, "crash_caller_baseexception": 300, "crash_badarg": 500, "crash_missing_aborted": 50,
               "crash_commit_write": 500, "abort_audits": 1500, "commit_audits": 300,
               "post_ops_twin_compared": 2000, "open_batch_db_events": 5000},
-    "thorough": {"crash_none": 3000, "crash_caller": 10000, "crash_badarg": 5000,
+    "thorough": {"crash_none": 3000, "crash_caller": 10000, "crash_caller_baseexception": 3000, "crash_badarg": 5000,
                  "crash_missing_aborted": 500, "crash_commit_write": 5000, "abort_audits": 15000,
                  "commit_audits": 3000, "post_ops_twin_compared": 20000, "open_batch_db_events": 50000},
 }
@@ -55,19 +55,20 @@ def _snap(trie, db, prune):
 def _apply_untracked(trie, model, op, twin, twin_state):
     """pre / post operation on the main trie (guarded) and on the twin (best effort)"""
     if op[0] == "batch":
-        _, sub, abort = op
+        _, sub, abort = op[:3]
+        exc_cls = hh.abort_exc(op)
         bm = dict(model)
 
         def block():
             with trie.squash_changes() as b:
                 for i, o in enumerate(sub):
                     if abort == i:
-                        raise hh.Boom()
+                        raise exc_cls()
                     hh.apply_plain(b, bm, o)
                 if abort == len(sub):
-                    raise hh.Boom()
+                    raise exc_cls()
 
-        res = cut(block, expect=(hh.Boom,))
+        res = cut(block, expect=hh.ALL_ABORTS)
         if not isinstance(res, Raised):
             model.clear()
             model.update(bm)
@@ -154,6 +155,7 @@ def run_case(case, ctx):
     before = _snap(t, db, prune)
     bmodel = dict(model)
     info = {"final_root": None, "raised_at": None}
+    caller_exc = hh.ABORT_EXC[crash.get("exc", 0) % len(hh.ABORT_EXC)]
     db.reset_counts()
     if kind == "commit_write":
         db.fail_write_at = crash["n"]
@@ -164,7 +166,7 @@ def run_case(case, ctx):
             try:
                 for i, o in enumerate(sub):
                     if kind == "caller" and crash["after"] == i:
-                        raise hh.Boom()
+                        raise caller_exc()
                     if kind == "badarg" and crash["at"] == i:
                         bad = BAD_ARGS[crash.get("arg", 0) % len(BAD_ARGS)]
                         which = crash.get("which", 0) % 3
@@ -188,7 +190,7 @@ def run_case(case, ctx):
                     else:
                         hh.apply_plain(b, bmodel, o)
                 if kind == "caller" and crash["after"] >= len(sub):
-                    raise hh.Boom()
+                    raise caller_exc()
                 if kind == "badarg" and crash["at"] >= len(sub):
                     b.set(None, b"v")
                     raise Violation("batch-badarg-accepted", "None key accepted inside the block")
@@ -196,7 +198,7 @@ def run_case(case, ctx):
             finally:
                 state["open"] = False
 
-    res = cut(block, expect=(hh.Boom, ValidationError, MissingTrieNode, InjectedWriteFailure))
+    res = cut(block, expect=hh.ALL_ABORTS + (ValidationError, MissingTrieNode, InjectedWriteFailure))
     db.fail_write_at = None
     ctx.count("open_batch_db_events", state["events"])
     if db.pending_trace_violation is not None:
@@ -207,7 +209,7 @@ def run_case(case, ctx):
     aborted = isinstance(res, Raised)
     if aborted:
         exc = res.exc
-        expected = {"caller": hh.Boom, "badarg": ValidationError, "missing": MissingTrieNode,
+        expected = {"caller": caller_exc, "badarg": ValidationError, "missing": MissingTrieNode,
                     "commit_write": InjectedWriteFailure}.get(kind)
         if expected is None or not isinstance(exc, expected):
             raise Violation("batch-unexpected-exception", "block left by %s: %s (crash kind %s)" % (
@@ -230,6 +232,8 @@ def run_case(case, ctx):
                 type(res.exc).__name__, len(set(before[2].items()) ^ set(after[2].items()))))
         ctx.count("abort_audits")
         ctx.count("crash_" + kind + ("_aborted" if kind == "missing" else ""))
+        if kind == "caller" and caller_exc is not hh.Boom:
+            ctx.count("crash_caller_baseexception")
         for h, v in removed.items():
             db.raw()[h] = v
         outcome = "abort"
@@ -339,7 +343,10 @@ def gen_base(rnd, tier):
                 hh._track(o, bk)
                 sub.append(o)
             abort = rnd.randint(0, n) if rnd.random() < 0.4 else None
-            pre.append(["batch", sub, abort])
+            if abort is not None and rnd.random() < 0.5:
+                pre.append(["batch", sub, abort, rnd.randrange(1, len(hh.ABORT_EXC))])
+            else:
+                pre.append(["batch", sub, abort])
             if abort is None:
                 keys = bk
         else:
@@ -367,6 +374,9 @@ def crash_points(base, rnd, commit_writes):
     yield {"kind": "none"}
     for i in range(n + 1):
         yield {"kind": "caller", "after": i}
+        # the same crash point, left by an exception that is not an Exception
+        # (BaseException subclass / KeyboardInterrupt / GeneratorExit)
+        yield {"kind": "caller", "after": i, "exc": 1 + (i + n) % 3}
     for i in range(n + 1):
         yield {"kind": "badarg", "at": i, "arg": rnd.randrange(len(BAD_ARGS)), "which": rnd.randrange(3)}
     if n:
